@@ -76,6 +76,21 @@ func remapScenarios(ctx context.Context, r *vkit.Run, rng *vkit.Rand) {
 			o.etag = res.ETag
 			objs = append(objs, o)
 		}
+		// an object whose part list repeats one part id (the same chunk appended twice is
+		// deduplicated onto one stored part): relabels that keep the parts in place must
+		// keep one registry reference per part ROW
+		{
+			chunk := sr.Bytes(700)
+			o := &obj{key: "obj-repeated-part", class: vkit.Pick(sr, classes), tags: map[string]string{"rep": "1"}}
+			r1 := vmodel.Exec(ctx, s, &vmodel.Op{Kind: vmodel.OpPut, Bucket: b, Key: o.key, Body: chunk, Class: vkit.Ptr(o.class), Tags: o.tags})
+			r2 := vmodel.Exec(ctx, s, &vmodel.Op{Kind: vmodel.OpAppend, Bucket: b, Key: o.key, Body: chunk})
+			r3 := vmodel.Exec(ctx, s, &vmodel.Op{Kind: vmodel.OpAppend, Bucket: b, Key: o.key, Body: chunk})
+			if r1.Kind == "" && r2.Kind == "" && r3.Kind == "" {
+				o.body = bytes.Repeat(chunk, 3)
+				o.etag = r3.ETag
+				objs = append(objs, o)
+			}
+		}
 		_ = s.Stop(ctx)
 		env.Close()
 		// reopen with another mapping over the same data (same construction order => same directories)
@@ -129,6 +144,10 @@ func remapScenarios(ctx context.Context, r *vkit.Run, rng *vkit.Rand) {
 		// transitions under the new mapping, including same-class ones
 		for _, o := range objs {
 			targets := []string{o.class, vkit.Pick(sr, classes)}
+			if o.key == "obj-repeated-part" {
+				// several relabels in a row that keep the parts where they are
+				targets = []string{o.class, o.class, o.class, vkit.Pick(sr, classes), o.class}
+			}
 			for _, target := range targets {
 				res := vmodel.Exec(ctx, s2, &vmodel.Op{Kind: vmodel.OpTransition, Bucket: b, Key: o.key, TargetClass: target})
 				r.Count("remap_transitions", 1)
